@@ -41,6 +41,7 @@ from ..lowlevel.api_async.backend.abc import AsyncBackend, CancelScope, ILock
 from ..lowlevel.api_async.backend.utils import BuiltinAsyncBackendLiteral, ensure_backend
 from ..lowlevel.api_async.endpoints.stream import AsyncStreamEndpoint
 from ..lowlevel.api_async.transports.abc import AsyncStreamTransport
+from ..lowlevel.api_async.transports.utils import aclose_forcefully
 from ..lowlevel.socket import (
     INETSocketAttribute,
     SocketAddress,
@@ -76,6 +77,7 @@ class AsyncTCPNetworkClient(AbstractAsyncNetworkClient[_T_SentPacket, _T_Receive
     __slots__ = (
         "__backend",
         "__endpoint",
+        "__transport",
         "__protocol",
         "__socket_connector",
         "__socket_connector_lock",
@@ -184,6 +186,7 @@ class AsyncTCPNetworkClient(AbstractAsyncNetworkClient[_T_SentPacket, _T_Receive
 
         self.__backend: AsyncBackend = backend
         self.__endpoint: AsyncStreamEndpoint[_T_SentPacket, _T_ReceivedPacket] | None = None
+        self.__transport: AsyncStreamTransport | None = None
         self.__socket_proxy: SocketProxy | None = None
         self.__protocol: AnyStreamProtocolType[_T_SentPacket, _T_ReceivedPacket] = protocol
 
@@ -429,10 +432,20 @@ class AsyncTCPNetworkClient(AbstractAsyncNetworkClient[_T_SentPacket, _T_Receive
         if self.__socket_connector is not None:
             self.__socket_connector.scope.cancel()
             self.__socket_connector = None
-        async with self.__send_lock:
+        try:
+            await self.__send_lock.acquire()
+        except self.__backend.get_cancelled_exc_class():
+            # Cancelled while a pending send_packet() holds the lock: close the transport abruptly, as documented.
+            # (Do not go through the endpoint: it is busy.)
+            if (transport := self.__transport) is not None:
+                await aclose_forcefully(transport)
+            raise
+        try:
             if self.__endpoint is None:
                 return
             await self.__endpoint.aclose()
+        finally:
+            self.__send_lock.release()
 
     async def send_packet(self, packet: _T_SentPacket) -> None:
         """
@@ -543,6 +556,7 @@ class AsyncTCPNetworkClient(AbstractAsyncNetworkClient[_T_SentPacket, _T_Receive
                 if endpoint_and_proxy is None:
                     raise self.__closed()
                 transport, self.__socket_proxy = endpoint_and_proxy
+                self.__transport = transport
                 self.__endpoint = AsyncStreamEndpoint(
                     transport,
                     self.__protocol,
